@@ -66,3 +66,14 @@ Qed.
 
 Theorem ibig_shr_floor s m n : 0 <= n -> 0 <= m -> ibig_shr_gen s m n = signed s m / 2 ^ n.
 Proof. intros Hn Hm. rewrite (proj1 (ibig_shr_correct s m n Hn Hm)). apply Z.shiftr_div_pow2; assumption. Qed.
+
+(** `big & unsigned primitive` returns the primitive type through try_into().unwrap(): the
+    conversion cannot fail, for a big operand of either sign the result fits the k bits of the
+    primitive operand *)
+Theorem land_unsigned_prim_fits x p k : 0 <= k -> 0 <= p < 2 ^ k -> 0 <= Z.land x p < 2 ^ k.
+Proof.
+  intros Hk Hp. assert (E : Z.land x p = Z.land x p mod 2 ^ k).
+  { rewrite <- Z.land_ones by assumption. rewrite <- Z.land_assoc. rewrite Z.land_ones by assumption.
+    rewrite (Z.mod_small p) by assumption. reflexivity. }
+  rewrite E. apply Z.mod_pos_bound. apply Z.pow_pos_nonneg; lia.
+Qed.
